@@ -47,7 +47,8 @@ def run(ctx):
     ctx.replay(rep, c, label="R/HttpRequestUrl", args=args, timeout=ctx.pick(600, 3000))
     os.unlink(c)
     # R3: request targets (NoDotDot is decided by TLC on the spec; the real reader must produce exactly that path)
-    cfgs = ["MC_HttpRequestTargets_quick"] if ctx.quick else ["MC_HttpRequestTargets_quick", "MC_HttpRequestTargets_thorough"]
+    # (_dots: only '.' and one other byte matter to the removal of '..', so paths over {'.', 'a'} are enumerated much deeper)
+    cfgs = ["MC_HttpRequestTargets_quick", "MC_HttpRequestTargets_dots"] + ([] if ctx.quick else ["MC_HttpRequestTargets_thorough"])
     for cfg in cfgs:
         c = _cases(ctx, "HttpRequestTargets", cfg, "c09-tgt.cases", ctx.pick(300, 2400))
         ctx.replay(rep, c, label="R/" + cfg[3:], args=args, timeout=ctx.pick(600, 3000))
